@@ -317,6 +317,9 @@ func checkC11(e *core.Env) {
 			if supported != 1 {
 				return
 			}
+			if count == 0 && hdrClass == "timeout" {
+				return // a server may refuse to dispatch a call whose time is already up
+			}
 			if count != 1 {
 				e.Violate(sig+"valid-not-run", fmt.Sprintf("valid unary request: handler invoked %d times (HTTP %d, X-GRPC-Status %q)", count, rec.Code, grpcStatus), w)
 				return
@@ -356,12 +359,15 @@ func checkC11(e *core.Env) {
 		if supported != 1 {
 			return
 		}
+		if count == 0 && hdrClass == "timeout" {
+			return // a server may refuse to dispatch a call whose time is already up
+		}
 		if count != 1 {
 			e.Violate(sig+"valid-not-run", fmt.Sprintf("valid streaming request: handler invoked %d times (HTTP %d)", count, rec.Code), w)
 			return
 		}
-		if rec.Code != 200 {
-			e.Violate(sig+"stream-reply-status", fmt.Sprintf("streaming reply has HTTP status %d", rec.Code), w)
+		if rec.Code != 200 && bodyClass == "valid" && (sc.Ret.How == "" || sc.Ret.How == "ok") {
+			e.Violate(sig+"stream-reply-status", fmt.Sprintf("streaming reply to a well-formed request whose handler succeeded has HTTP status %d", rec.Code), w)
 		}
 		if mt, _, _ := mime.ParseMediaType(rec.Header().Get("Content-Type")); rec.Code == 200 && mt != httpgrpc.StreamRpcContentType_V1 {
 			e.Violate(sig+"reply-content-type", fmt.Sprintf("streaming reply to a %q request is labelled %q", ctc.ct, rec.Header().Get("Content-Type")), w)
